@@ -285,6 +285,19 @@ Theorem route_determined_by_configuration_regex :
     route_lookup re_match (run re_ok re_match h1) h path m = route_lookup re_match (run re_ok re_match h2) h path m.
 Proof. exact route_determined_regex_lemma. Qed.
 
+(** order_independent with regex hostnames, on membership *)
+Theorem order_independent_regex :
+  forall re_ok re_match h1 h2 h path m,
+    rplain_history re_ok h1 -> rplain_history re_ok h2 -> good_key h -> label_of h <> [STAR] ->
+    s_pre (config re_ok h1) = s_pre (config re_ok h2) ->
+    s_post (config re_ok h1) = s_post (config re_ok h2) ->
+    (forall k, same_members (s_tree (config re_ok h1) k) (s_tree (config re_ok h2) k)) ->
+    (forall k1 k2, regex_host_for re_ok re_match (config re_ok h1) h k1 ->
+                   regex_host_for re_ok re_match (config re_ok h1) h k2 -> k1 = k2) ->
+    (forall rules, host_rules re_ok re_match (config re_ok h1) h rules -> no_ties re_match path m rules) ->
+    route_lookup re_match (run re_ok re_match h1) h path m = route_lookup re_match (run re_ok re_match h2) h path m.
+Proof. exact order_independent_regex_lemma. Qed.
+
 (** unrelated_add_remove_irrelevant.  Full statement (properties.jsonl): adding
     or removing a frontend that does not match a request never changes that
     request's route.  The faithful model refutes it ([unrelated_refuted]: a
